@@ -27,6 +27,15 @@ T = {
     "C06": ("icontract post-conditions on get_commensurate_points* (integer lattice arithmetic) + round-trip monitor FC->D(q_c)->FC (C/Py, full/compact) + ph2ph re-expression monitor",
             "Held on the executions produced: random integer matrices (det<=48), zoo supercells incl. Wigner-Seitz-boundary multiplicities, ph2ph to multiple and non-multiple targets with/without NAC (Gonze-Lee to its reciprocal-sum precision).",
             "round trip claimed for permutation-symmetric periodic arrays only (D is Hermitised); ph2ph compared at q commensurate with both supercells", "3/C06"),
+    "C07": ("relational monitor: fixed points, imposed invariances measured by the harness (drift, permutation, space-group residual), idempotence, compact routine vs full routine on the harness-expanded array",
+            "Held on the executions produced: zoo x supercells with and without self-inverse translations (counted) x projected/noisy/random periodic inputs x levels 1..3; set_tensor_symmetry_PJ, show_drift immutability, layout round trip. 1e-10 relative.",
+            "harness derives the pure translations and the compact<->full expansion from positions itself", "3/C07"),
+    "C08": ("reference-model monitor: closed-form zone-centre non-analytic term from the (Z, eps) stored after symmetrisation; no-op identities at commensurate q and for zero charges; symmetrisation vs harness group average",
+            "Held on the executions produced: polar zoo cells x Wang and Gonze-Lee x full/compact x 4 unit factors x 8 directions with |n| scaled by 1e-3..1e3 x all commensurate q (Gonze-Lee exact at the unique first-BZ representative, reciprocal-sum precision elsewhere).",
+            "n.Z contracts the first (field) index of the Born tensor as documented; Gonze-Lee precision away from the construction points taken as 1e-3 of the dipole-dipole scale", "3/C08"),
+    "C09": ("icontract post-condition on GridPoints (always on) + documented-grid oracle, orbit test on the mapping table under the harness' reciprocal point group (or time reversal), exactly invariant test functions summed over ir-points vs the full grid, phonon-level sums with mesh symmetry on vs off",
+            "Held on the executions produced: 17 primitive cells of all lattice systems x meshes from {1..6}^3 x none/half/arbitrary/integer shifts x Gamma/MP x time reversal x fit_in_BZ x symmetry; Mesh and IterMesh; thermal properties, smearing DOS, moments. One known finding (symmetry-breaking half shift without time reversal).",
+            "point group from the harness' own spglib call; tetrahedron DOS deliberately excluded", "3/C09"),
 }
 
 NA_REASON = "check not built yet in this round (runtime-monitoring driver pending); no claim is made"
